@@ -89,6 +89,8 @@ func methodEffects(c *core.Ctx, rule string, fn *ssa.Function) (effects, bool) {
 				return "book"
 			case strings.HasPrefix(p.Loc, "L:"+recv):
 				return "recv"
+			case recv != "" && strings.HasPrefix(p.Loc, "L:field("+recv+","):
+				return "recv" // through a pointer kept in a field of a receiver passed by value
 			}
 			// follow a load symbol
 			if strings.HasPrefix(p.Loc, "L:§") {
@@ -148,6 +150,10 @@ func methodEffects(c *core.Ctx, rule string, fn *ssa.Function) (effects, bool) {
 			return
 		}
 		note(r, "store to "+addr.Key(), c.P.Pos(in.Pos()))
+		if r == "recv" && !isNumeric(in.Val.Type()) && fn.Name() == "Process" && len(fn.Params) == 2 && derivesFromParam(x, val, fn.Params[1].Name(), 0) {
+			// something of this day (its date, a name, the record itself) is kept for the next call
+			ef.overwrites = append(ef.overwrites, fmt.Sprintf("%s: %s is set to something taken from this day's record (%s) — what the next day shows can then depend on this one", c.P.Pos(in.Pos()), addr.Key(), shortKey(val.Key())))
+		}
 		if r == "recv" && isNumeric(in.Val.Type()) {
 			if p, ok := addr.(absint.Ptr); ok && !strings.Contains(p.Loc, "[") {
 				oldKey := ""
@@ -401,15 +407,17 @@ func ruleCallbackScratch(c *core.Ctx, rule string) {
 func init() {
 	register(&Property{
 		ID:    "C12",
-		Rules: []string{"C12-R1", "C12-R2", "C12-R3", "C12-R4", "C12-R5", "C12-R6", "C10-R3", "C06-R1"},
+		Rules: []string{"C12-R1", "C12-R2", "C12-R3", "C12-R4", "C12-R5", "C12-R6", "C10-R3", "C06-R1", "C12-R7", "C12-R8"},
 		Explain: "Decides the absence of state that could leak from one day into the next: C12-R1 every Reporter implementation is streaming (Process writes to its sink and to nothing persistent; Flush adds no content) or accumulating (Process updates its own state and writes nothing), never both, and no Process writes a package-level variable or the shared recipe book; " +
 			"C12-R2 the per-record callback that feeds reporters writes every captured variable before reading it within one invocation; " +
 			"C12-R3 no pointer to a variable that outlives one record is stored into a record by the parser; C12-R4 every heading yields exactly one delivered record whatever follows it; " +
 			"C12-R5 a reporter's sink is the configured output, a bufio.Writer or a csv.Writer over it — not a writer that holds rows back and re-lays them out when flushed (text/tabwriter), which would make earlier days' rows depend on later days; " +
 			"C12-R6 a decision on the size of an accumulator is an emptiness test (a part that contributed one element is not treated as empty); C12-R7 in Process an entry of a numeric map of the reporter, or a scalar total, is only ever updated to its old value plus the day's contribution (never overwritten); " +
-			"C10-R3 (shared) no per-record callback stops the walk without an error, so a day in the middle cannot make the later days vanish.",
+			"C10-R3 (shared) no per-record callback stops the walk without an error, so a day in the middle cannot make the later days vanish. C12-R7 a per-day function that reads its accumulator back makes it anew in that call. C12-R1 also: Process keeps nothing taken from the day's record (its date, a name) in the reporter for the next call. C12-R8 the day record a per-record callback hands to Process is made in that call, or every field of a reused record is assigned on every path before the call (and a reused list is emptied first).",
 		NotDecided: "element-wise sum of the parts for period reports (float addition order), equality of concatenated outputs as byte strings",
 		Run: func(c *core.Ctx) {
+			ruleDayAccumulatorFresh(c, "C12-R7")
+			ruleRecordFresh(c, "C12-R8")
 			ruleReporterDiscipline(c, "C12-R1")
 			ruleReporterSinks(c, "C12-R5")
 			ruleEmptinessTests(c, "C12-R6")
@@ -441,6 +449,7 @@ func ruleReporterSinks(c *core.Ctx, rule string) {
 			if !isWriterType(ft) {
 				continue
 			}
+			ft = core.EffectiveType(ft) // an interface of the tree that only ever holds one writer type
 			n++
 			name := t.Obj().Pkg().Name() + "." + t.Obj().Name()
 			pos := c.P.Pos(st.Field(i).Pos())
@@ -600,4 +609,165 @@ func sumContains(v absint.Value, pred func(absint.Value) bool, depth int) bool {
 		}
 	}
 	return false
+}
+
+// ruleDayAccumulatorFresh is C12-R7: the accumulator a per-day function (one that is handed the day's *LogNode)
+// adds the day's amounts to is made in that call — `acc := NewAccumulator()` — or, when it is kept in a field, the
+// field is given a newly made accumulator before the first Add of the call. An accumulator that survives from one
+// day to the next and is merely emptied of its values keeps the names of earlier days: later days then show rows of
+// zeros for elements they do not have, so the report of a history is not the reports of its days put together.
+func ruleDayAccumulatorFresh(c *core.Ctx, rule string) {
+	lnT := c.P.LookupType(core.LibPath, "LogNode")
+	accT := c.P.LookupType(core.LibPath, "Accumulator")
+	if !requireAnchor(c, rule, "lib.LogNode", lnT != nil) || !requireAnchor(c, rule, "lib.Accumulator", accT != nil) {
+		return
+	}
+	fresh := func(v ssa.Value) bool {
+		switch t := v.(type) {
+		case *ssa.MakeMap:
+			return true
+		case *ssa.Call:
+			cal := core.Callee(&t.Call)
+			return cal != nil && cal.Name() == "NewAccumulator"
+		case *ssa.ChangeType:
+			_, ok := t.X.(*ssa.MakeMap)
+			return ok
+		}
+		return false
+	}
+	n := 0
+	for _, fn := range c.P.Funcs {
+		perDay := false
+		for _, p := range fn.Params {
+			if pt, ok := p.Type().(*types.Pointer); ok && types.Identical(pt.Elem(), lnT) {
+				perDay = true
+			}
+		}
+		if !perDay || fn.Parent() != nil {
+			continue
+		}
+		for _, b := range fn.Blocks {
+			for _, in := range b.Instrs {
+				call, ok := in.(*ssa.Call)
+				if !ok || !isMethod(core.Callee(&call.Call), core.LibPath, "Accumulator", "Add") || len(call.Call.Args) == 0 {
+					continue
+				}
+				recv := call.Call.Args[0]
+				ld, ok := recv.(*ssa.UnOp)
+				if !ok || ld.Op != token.MUL {
+					continue // a local accumulator (made in this call or handed in by the caller for this day)
+				}
+				fa, ok := ld.X.(*ssa.FieldAddr)
+				if !ok {
+					continue
+				}
+				n++
+				fname := core.FuncName(fn)
+				fld := fieldName(fa.X.Type(), fa.Field)
+				pos := c.P.Pos(call.Pos())
+				c.Universe(rule+" accumulators kept in a field and fed per day", fname+" "+fld+" ("+pos+")")
+				// a store of a newly made accumulator into the same field that dominates this Add
+				renewed := false
+				for _, b2 := range fn.Blocks {
+					for _, in2 := range b2.Instrs {
+						st, ok := in2.(*ssa.Store)
+						if !ok {
+							continue
+						}
+						fa2, ok := st.Addr.(*ssa.FieldAddr)
+						if !ok || fa2.Field != fa.Field || fa2.X != fa.X || !fresh(st.Val) {
+							continue
+						}
+						if b2.Dominates(call.Block()) {
+							renewed = true
+						}
+					}
+				}
+				if renewed {
+					c.Discharge(rule, fname, "fresh "+fld, pos, "the field is given a newly made accumulator earlier in the same call")
+				} else {
+					// an accumulator that collects over the whole walk (a period total, printed at Flush) is not a per-day one:
+					// it is one only if the same call also reads it back
+					if readsBack(fn, fa) {
+						c.Violate(rule, fname, "fresh "+fld, pos, fmt.Sprintf("the day's amounts are added to the accumulator kept in field %s, which the same call also reads back for the day's totals, and the call does not give the field a newly made accumulator first: names (and, unless every register is cleared, amounts) of earlier days survive into later ones", fld), nil)
+					} else {
+						c.Discharge(rule, fname, "fresh "+fld, pos, "a running accumulator over the whole walk (the call does not read it back)")
+					}
+				}
+			}
+		}
+	}
+	if n == 0 {
+		c.Note(rule + ": no per-day function feeds an accumulator kept in a field (vacuous)")
+	}
+}
+
+// readsBack: fn (or a function of its package it calls with the structure) ranges over or looks up the accumulator
+// held in the field fa names, or hands it to another function.
+func readsBack(fn *ssa.Function, fa *ssa.FieldAddr) bool {
+	for _, b := range fn.Blocks {
+		for _, in := range b.Instrs {
+			ld, ok := in.(*ssa.UnOp)
+			if !ok || ld.Op != token.MUL {
+				continue
+			}
+			fa2, ok := ld.X.(*ssa.FieldAddr)
+			if !ok || fa2.Field != fa.Field || fa2.X != fa.X || ld.Referrers() == nil {
+				continue
+			}
+			for _, r := range *ld.Referrers() {
+				switch t := r.(type) {
+				case *ssa.Range, *ssa.Lookup:
+					return true
+				case *ssa.Call:
+					if cal := core.Callee(&t.Call); cal != nil && cal.Name() != "Add" {
+						return true
+					}
+				}
+			}
+		}
+	}
+	return false
+}
+
+// derivesFromParam: v mentions the parameter called pname, or the initial content of memory reached through it.
+func derivesFromParam(x *absint.Exec, v absint.Value, pname string, depth int) bool {
+	if depth > 3 || v == nil {
+		return false
+	}
+	key := v.Key()
+	if strings.Contains(key, "§"+pname+",") || strings.Contains(key, "§"+pname+")") || strings.HasSuffix(key, "§"+pname) || strings.Contains(key, "§"+pname+"·") || strings.Contains(key, "§"+pname+"}") {
+		return true
+	}
+	for i := 0; i < len(key); i++ {
+		j := strings.Index(key[i:], "§@")
+		if j < 0 {
+			break
+		}
+		i += j + len("§@")
+		k := i
+		for k < len(key) && key[k] >= '0' && key[k] <= '9' {
+			k++
+		}
+		if loc, ok := x.LocOf[key[i:k]]; ok {
+			if strings.Contains(loc, "§"+pname+"·") || strings.Contains(loc, "§"+pname+"[") || strings.HasSuffix(loc, "§"+pname) {
+				return true
+			}
+			if derivesFromParam(x, absint.Sym{Name: "loc:" + loc}, pname, depth+1) && false {
+				return true
+			}
+			// a cell reached through another loaded cell
+			if strings.Contains(loc, "§@") && derivesFromParam(x, absint.Sym{Name: strings.TrimPrefix(loc, "L:§")}, pname, depth+1) {
+				return true
+			}
+		}
+	}
+	return false
+}
+
+func shortKey(k string) string {
+	if len(k) > 80 {
+		return k[:80] + "…"
+	}
+	return k
 }
